@@ -425,6 +425,20 @@ def build_frame(af, layout=None, cls=None):
     if not cols:
         return cls(index=index, columns=columns, name=name)
     arrays = build_blocks(cols, layout, nrows)
+    # a grow-only Frame is, every other time, GROWN to its final shape: trailing 1-D blocks are appended column by column, so that the
+    # container carries the internal state of a grown one (pending index cache, appended blocks) - unobservable by every property
+    _ROUTE_TICK[0] += 1
+    k = 0
+    if cls is sf.FrameGO and columns is not None and columns.depth == 1 and not af.get('columns_auto') and _ROUTE_TICK[0] % 2 == 0:
+        while k < len(layout) - 1 and k < 2 and list(layout[len(layout) - 1 - k]) == [1, 1]:
+            k += 1
+    if k:
+        labels = list(columns)
+        tb = sf.TypeBlocks.from_blocks(arrays[:len(arrays) - k])
+        f = cls(tb, index=index, columns=sf.IndexGO(labels[:len(labels) - k]), name=name, own_data=True)
+        for lab, a in zip(labels[len(labels) - k:], arrays[len(arrays) - k:]):
+            f[lab] = a
+        return f
     tb = sf.TypeBlocks.from_blocks(arrays)
     f = cls(tb, index=index, columns=columns, name=name, own_data=True)
     return f
